@@ -267,6 +267,12 @@ fn alphabet_wide() -> Vec<V> {
         mid(5, Some(V::None)),
         mid(6, Some(V::s("b"))),
         mid(7, Some(V::Bool(true))),
+        // one class of equal numbers with three prints: positive and negative float zero, integer zero
+        V::F64(0.0),
+        V::F64(-0.0),
+        V::I64(0),
+        mid(8, Some(V::F64(0.0))),
+        mid(9, Some(V::F64(-0.0))),
     ]);
     v
 }
@@ -296,6 +302,9 @@ fn alphabet_keys() -> Vec<Option<V>> {
         // keys of different signedness hashed differently and group_by split them)
         Some(V::U64(1)),
         Some(V::F64(1.0)),
+        // equal keys that print differently (seeded change C16-4: an order that told -0.0 from 0.0)
+        Some(V::F64(0.0)),
+        Some(V::F64(-0.0)),
         Some(V::U64(2)),
         Some(V::s("a")),
         Some(V::s("b")),
